@@ -215,7 +215,7 @@ impl Gen {
             return v.clone();
         }
         let mut out = Vec::new();
-        self.emit(n, sc, &mut |e| out.push(e));
+        self.emit(n, sc, &mut |mk| out.push(mk()));
         let rc = Rc::new(out);
         self.memo.insert((n, sc), rc.clone());
         rc
@@ -223,54 +223,59 @@ impl Gen {
 
     /// Streams every program with exactly `n` nodes (sub-terms come from memoised lists).
     pub fn for_each(&mut self, n: usize, sc: Scope, f: &mut dyn FnMut(E)) {
+        self.emit(n, sc, &mut |mk| f(mk()));
+    }
+
+    /// Like `for_each`, but the term is only built when the consumer asks for it.
+    pub fn for_each_lazy(&mut self, n: usize, sc: Scope, f: &mut dyn FnMut(&dyn Fn() -> E)) {
         self.emit(n, sc, f);
     }
 
     pub fn count(&mut self, n: usize, sc: Scope) -> u64 {
         let mut c = 0u64;
-        self.emit(n, sc, &mut |_| c += 1);
+        self.emit(n, sc, &mut |_mk| c += 1);
         c
     }
 
-    fn leaves(&self, sc: Scope, out: &mut dyn FnMut(E)) {
+    fn leaves(&self, sc: Scope, out: &mut dyn FnMut(&dyn Fn() -> E)) {
         let p = self.profile;
-        out(E::Null);
-        out(E::True);
+        out(&|| E::Null);
+        out(&|| E::True);
         if p.logic || p.cmp || p.lazy {
-            out(E::False);
+            out(&|| E::False);
         }
-        out(num(0));
-        out(num(1));
+        out(&|| num(0));
+        out(&|| num(1));
         if p.arith || p.slices || p.bitwise {
-            out(num(2));
+            out(&|| num(2));
         }
-        out(strlit("a"));
+        out(&|| strlit("a"));
         if p.strings || p.objects || p.cmp {
-            out(strlit("b"));
+            out(&|| strlit("b"));
         }
         if p.strings {
-            out(strlit("é😀"));
+            out(&|| strlit("é😀"));
         }
         if sc.x {
-            out(var("x"));
+            out(&|| var("x"));
         }
         if sc.y {
-            out(var("y"));
+            out(&|| var("y"));
         }
         if sc.in_obj {
-            out(E::SelfE);
-            out(E::Dollar);
-            out(E::SuperField("a".into()));
+            out(&|| E::SelfE);
+            out(&|| E::Dollar);
+            out(&|| E::SuperField("a".into()));
         }
         if p.arrays {
-            out(E::Array(vec![]));
+            out(&|| E::Array(vec![]));
         }
         if p.objects {
-            out(E::Object(vec![]));
+            out(&|| E::Object(vec![]));
         }
     }
 
-    fn emit(&mut self, n: usize, sc: Scope, out: &mut dyn FnMut(E)) {
+    fn emit(&mut self, n: usize, sc: Scope, out: &mut dyn FnMut(&dyn Fn() -> E)) {
         let p = self.profile;
         if n == 0 {
             return;
@@ -285,51 +290,51 @@ impl Gen {
             let cs = self.all(n - 1, sc);
             for c in cs.iter() {
                 if p.objects {
-                    out(E::Field(b(c.clone()), "a".into()));
+                    out(&|| E::Field(b(c.clone()), "a".into()));
                     if p.stdfns || p.objects_deep {
-                        out(stdcall("objectFields", vec![c.clone()]));
+                        out(&|| stdcall("objectFields", vec![c.clone()]));
                     }
                     if p.objects_deep {
-                        out(stdcall("objectFieldsAll", vec![c.clone()]));
-                        out(E::Field(b(c.clone()), "b".into()));
+                        out(&|| stdcall("objectFieldsAll", vec![c.clone()]));
+                        out(&|| E::Field(b(c.clone()), "b".into()));
                     }
                 }
                 if p.stdfns || p.objects_deep || p.strings {
-                    out(stdcall("length", vec![c.clone()]));
+                    out(&|| stdcall("length", vec![c.clone()]));
                 }
                 if p.stdfns {
-                    out(stdcall("type", vec![c.clone()]));
-                    out(stdcall("toString", vec![c.clone()]));
+                    out(&|| stdcall("type", vec![c.clone()]));
+                    out(&|| stdcall("toString", vec![c.clone()]));
                 }
                 if p.lazy {
-                    out(E::Error(b(c.clone())));
+                    out(&|| E::Error(b(c.clone())));
                 }
                 if p.trace {
-                    out(stdcall("trace", vec![strlit("t"), c.clone()]));
+                    out(&|| stdcall("trace", vec![strlit("t"), c.clone()]));
                 }
                 if p.arith {
-                    out(E::Un(UnOp::Neg, b(c.clone())));
-                    out(E::Un(UnOp::Pos, b(c.clone())));
+                    out(&|| E::Un(UnOp::Neg, b(c.clone())));
+                    out(&|| E::Un(UnOp::Pos, b(c.clone())));
                 }
                 if p.logic {
-                    out(E::Un(UnOp::Not, b(c.clone())));
+                    out(&|| E::Un(UnOp::Not, b(c.clone())));
                 }
                 if p.bitwise {
-                    out(E::Un(UnOp::BitNot, b(c.clone())));
+                    out(&|| E::Un(UnOp::BitNot, b(c.clone())));
                 }
                 if p.arrays {
-                    out(E::Array(vec![c.clone()]));
+                    out(&|| E::Array(vec![c.clone()]));
                 }
                 if sc.in_obj && p.objects {
-                    out(E::InSuper(b(c.clone())));
-                    out(E::SuperIndex(b(c.clone())));
+                    out(&|| E::InSuper(b(c.clone())));
+                    out(&|| E::SuperIndex(b(c.clone())));
                 }
                 if p.functions {
-                    out(E::Call(b(c.clone()), vec![], false));
-                    out(E::Func(vec![], b(c.clone())));
+                    out(&|| E::Call(b(c.clone()), vec![], false));
+                    out(&|| E::Func(vec![], b(c.clone())));
                 }
                 if p.slices {
-                    out(E::Slice(b(c.clone()), None, None, None));
+                    out(&|| E::Slice(b(c.clone()), None, None, None));
                 }
             }
             // object literals with one field: children live in object scope
@@ -338,17 +343,17 @@ impl Gen {
                 for c in cs.iter() {
                     for vis in [Vis::Default, Vis::Hidden, Vis::Forced] {
                         for plus in [false, true] {
-                            out(E::Object(vec![field("a", vis, plus, c.clone())]));
+                            out(&|| E::Object(vec![field("a", vis, plus, c.clone())]));
                         }
                     }
-                    out(E::Object(vec![field("b", Vis::Default, false, c.clone())]));
-                    out(E::Object(vec![Member::Assert(c.clone(), None)]));
+                    out(&|| E::Object(vec![field("b", Vis::Default, false, c.clone())]));
+                    out(&|| E::Object(vec![Member::Assert(c.clone(), None)]));
                 }
                 if p.functions {
                     // method: parameter in scope of the body
                     let cs = self.all(n - 1, fsc.obj());
                     for c in cs.iter() {
-                        out(E::Object(vec![Member::Field {
+                        out(&|| E::Object(vec![Member::Field {
                             name: FieldName::Id("a".into()),
                             plus: false,
                             vis: Vis::Default,
@@ -361,7 +366,7 @@ impl Gen {
             if p.functions {
                 let cs = self.all(n - 1, fsc);
                 for c in cs.iter() {
-                    out(E::Func(vec![param(fresh, None)], b(c.clone())));
+                    out(&|| E::Func(vec![param(fresh, None)], b(c.clone())));
                 }
             }
         }
@@ -374,7 +379,7 @@ impl Gen {
             for a in as_.iter() {
                 for c in bs.iter() {
                     let (a, c) = (a.clone(), c.clone());
-                    let mut bin = |op: BinOp| out(E::Bin(op, b(a.clone()), b(c.clone())));
+                    let mut bin = |op: BinOp| out(&|| E::Bin(op, b(a.clone()), b(c.clone())));
                     bin(BinOp::Add);
                     if p.arith {
                         bin(BinOp::Sub);
@@ -411,29 +416,29 @@ impl Gen {
                         bin(BinOp::Shr);
                     }
                     if p.objects || p.arrays || p.strings || p.functions {
-                        out(E::Index(b(a.clone()), b(c.clone())));
+                        out(&|| E::Index(b(a.clone()), b(c.clone())));
                     }
                     if p.functions {
-                        out(E::Call(b(a.clone()), vec![Arg::Pos(c.clone())], false));
-                        out(E::Call(b(a.clone()), vec![Arg::Named("x".into(), c.clone())], false));
+                        out(&|| E::Call(b(a.clone()), vec![Arg::Pos(c.clone())], false));
+                        out(&|| E::Call(b(a.clone()), vec![Arg::Named("x".into(), c.clone())], false));
                     }
                     if p.functions || p.lazy || p.logic {
-                        out(E::If(b(a.clone()), b(c.clone()), None));
+                        out(&|| E::If(b(a.clone()), b(c.clone()), None));
                     }
                     if p.arrays {
-                        out(E::Array(vec![a.clone(), c.clone()]));
+                        out(&|| E::Array(vec![a.clone(), c.clone()]));
                     }
                     if p.lazy {
-                        out(E::Assert(b(a.clone()), None, b(c.clone())));
+                        out(&|| E::Assert(b(a.clone()), None, b(c.clone())));
                     }
                     if p.slices {
-                        out(E::Slice(b(a.clone()), Some(b(c.clone())), None, None));
-                        out(E::Slice(b(a.clone()), None, Some(b(c.clone())), None));
-                        out(E::Slice(b(a.clone()), None, None, Some(b(c.clone()))));
+                        out(&|| E::Slice(b(a.clone()), Some(b(c.clone())), None, None));
+                        out(&|| E::Slice(b(a.clone()), None, Some(b(c.clone())), None));
+                        out(&|| E::Slice(b(a.clone()), None, None, Some(b(c.clone()))));
                     }
                     if p.objects_deep && p.stdfns {
-                        out(stdcall("objectHas", vec![a.clone(), c.clone()]));
-                        out(stdcall("objectHasAll", vec![a.clone(), c.clone()]));
+                        out(&|| stdcall("objectHas", vec![a.clone(), c.clone()]));
+                        out(&|| stdcall("objectHasAll", vec![a.clone(), c.clone()]));
                     }
                 }
             }
@@ -442,10 +447,10 @@ impl Gen {
                 let (as_, bs) = (self.all(i, fsc), self.all(j, fsc));
                 for a in as_.iter() {
                     for c in bs.iter() {
-                        out(E::Local(vec![bind(fresh, a.clone())], b(c.clone())));
+                        out(&|| E::Local(vec![bind(fresh, a.clone())], b(c.clone())));
                         if p.functions {
                             // default parameter seeing itself / used by body
-                            out(E::Func(vec![param(fresh, Some(a.clone()))], b(c.clone())));
+                            out(&|| E::Func(vec![param(fresh, Some(a.clone()))], b(c.clone())));
                         }
                     }
                 }
@@ -457,7 +462,7 @@ impl Gen {
                 let (as_, bs) = (self.all(i, psc), self.all(j, nsc));
                 for a in as_.iter() {
                     for c in bs.iter() {
-                        out(E::Local(
+                        out(&|| E::Local(
                             vec![Bind {
                                 name: fname.into(),
                                 params: Some(vec![param(pname, None)]),
@@ -473,20 +478,20 @@ impl Gen {
                 let (as_, bs) = (self.all(i, osc), self.all(j, osc));
                 for a in as_.iter() {
                     for c in bs.iter() {
-                        out(E::Object(vec![
+                        out(&|| E::Object(vec![
                             field("a", Vis::Default, false, a.clone()),
                             field("b", Vis::Default, false, c.clone()),
                         ]));
-                        out(E::Object(vec![
+                        out(&|| E::Object(vec![
                             field("a", Vis::Hidden, false, a.clone()),
                             field("b", Vis::Default, true, c.clone()),
                         ]));
-                        out(E::Object(vec![
+                        out(&|| E::Object(vec![
                             Member::Assert(a.clone(), None),
                             field("a", Vis::Default, false, c.clone()),
                         ]));
                         if p.objects_deep {
-                            out(E::Object(vec![Member::Assert(a.clone(), Some(c.clone()))]));
+                            out(&|| E::Object(vec![Member::Assert(a.clone(), Some(c.clone()))]));
                         }
                     }
                 }
@@ -494,7 +499,7 @@ impl Gen {
                 let (as_, bs) = (self.all(i, lsc), self.all(j, lsc));
                 for a in as_.iter() {
                     for c in bs.iter() {
-                        out(E::Object(vec![
+                        out(&|| E::Object(vec![
                             Member::Local(bind(lname, a.clone())),
                             field("a", Vis::Default, false, c.clone()),
                         ]));
@@ -504,7 +509,7 @@ impl Gen {
                 let (as_, bs) = (self.all(i, sc), self.all(j, sc.obj()));
                 for a in as_.iter() {
                     for c in bs.iter() {
-                        out(E::Object(vec![Member::Field {
+                        out(&|| E::Object(vec![Member::Field {
                             name: FieldName::Expr(a.clone()),
                             plus: false,
                             vis: Vis::Default,
@@ -518,7 +523,7 @@ impl Gen {
                     let (as_, bs) = (self.all(i, sc), self.all(j, sc.obj()));
                     for a in as_.iter() {
                         for c in bs.iter() {
-                            out(E::ObjExt(
+                            out(&|| E::ObjExt(
                                 b(a.clone()),
                                 b(E::Object(vec![field("a", Vis::Default, true, c.clone())])),
                             ));
@@ -531,7 +536,7 @@ impl Gen {
                 let (as_, bs) = (self.all(i, sc), self.all(j, fsc));
                 for a in as_.iter() {
                     for c in bs.iter() {
-                        out(E::ArrComp(b(c.clone()), vec![Spec::For(fresh.into(), a.clone())]));
+                        out(&|| E::ArrComp(b(c.clone()), vec![Spec::For(fresh.into(), a.clone())]));
                     }
                 }
                 if p.objects {
@@ -539,7 +544,7 @@ impl Gen {
                     let (as_, bs) = (self.all(i, sc), self.all(j, fsc.obj()));
                     for a in as_.iter() {
                         for c in bs.iter() {
-                            out(E::ObjComp {
+                            out(&|| E::ObjComp {
                                 locals1: vec![],
                                 name: b(var(fresh)),
                                 plus: false,
@@ -562,7 +567,7 @@ impl Gen {
                 for a in as_.iter() {
                     for c in bs.iter() {
                         for d in cs.iter() {
-                            out(E::If(b(a.clone()), b(c.clone()), Some(b(d.clone()))));
+                            out(&|| E::If(b(a.clone()), b(c.clone()), Some(b(d.clone()))));
                         }
                     }
                 }
@@ -572,12 +577,12 @@ impl Gen {
                 for a in as_.iter() {
                     for c in bs.iter() {
                         for d in cs.iter() {
-                            out(E::Call(
+                            out(&|| E::Call(
                                 b(a.clone()),
                                 vec![Arg::Pos(c.clone()), Arg::Pos(d.clone())],
                                 false,
                             ));
-                            out(E::Call(
+                            out(&|| E::Call(
                                 b(a.clone()),
                                 vec![Arg::Pos(c.clone()), Arg::Named("y".into(), d.clone())],
                                 false,
@@ -593,7 +598,7 @@ impl Gen {
                     if i == 1 {
                         for a in as_.iter() {
                             for c in bs.iter() {
-                                out(E::Func(
+                                out(&|| E::Func(
                                     vec![param(n1, None), param(n2, Some(a.clone()))],
                                     b(c.clone()),
                                 ));
@@ -607,7 +612,7 @@ impl Gen {
                 for a in as_.iter() {
                     for c in bs.iter() {
                         for d in cs.iter() {
-                            out(E::Assert(b(a.clone()), Some(b(c.clone())), b(d.clone())));
+                            out(&|| E::Assert(b(a.clone()), Some(b(c.clone())), b(d.clone())));
                         }
                     }
                 }
@@ -617,8 +622,8 @@ impl Gen {
                 for a in as_.iter() {
                     for c in bs.iter() {
                         for d in cs.iter() {
-                            out(E::Slice(b(a.clone()), Some(b(c.clone())), Some(b(d.clone())), None));
-                            out(E::Slice(b(a.clone()), Some(b(c.clone())), None, Some(b(d.clone()))));
+                            out(&|| E::Slice(b(a.clone()), Some(b(c.clone())), Some(b(d.clone())), None));
+                            out(&|| E::Slice(b(a.clone()), Some(b(c.clone())), None, Some(b(d.clone()))));
                         }
                     }
                 }
@@ -632,7 +637,7 @@ impl Gen {
                     for a in as_.iter() {
                         for c in bs.iter() {
                             for d in cs.iter() {
-                                out(E::Local(
+                                out(&|| E::Local(
                                     vec![bind(n1, a.clone()), bind(n2, c.clone())],
                                     b(d.clone()),
                                 ));
@@ -647,7 +652,7 @@ impl Gen {
                 for a in as_.iter() {
                     for c in bs.iter() {
                         for d in cs.iter() {
-                            out(E::ArrComp(
+                            out(&|| E::ArrComp(
                                 b(d.clone()),
                                 vec![Spec::For(fresh.into(), a.clone()), Spec::If(c.clone())],
                             ));
@@ -661,7 +666,7 @@ impl Gen {
                     for a in as_.iter() {
                         for c in bs.iter() {
                             for d in cs.iter() {
-                                out(E::ArrComp(
+                                out(&|| E::ArrComp(
                                     b(d.clone()),
                                     vec![
                                         Spec::For(fresh.into(), a.clone()),
@@ -678,7 +683,7 @@ impl Gen {
                     for a in as_.iter() {
                         for c in bs.iter() {
                             for d in cs.iter() {
-                                out(E::ObjComp {
+                                out(&|| E::ObjComp {
                                     locals1: vec![],
                                     name: b(c.clone()),
                                     plus: false,
@@ -697,7 +702,7 @@ impl Gen {
                 for a in as_.iter() {
                     for c in bs.iter() {
                         for d in cs.iter() {
-                            out(E::Object(vec![
+                            out(&|| E::Object(vec![
                                 Member::Assert(a.clone(), Some(c.clone())),
                                 field("a", Vis::Default, false, d.clone()),
                             ]));
@@ -720,9 +725,9 @@ pub fn for_each_sharded(
 ) -> u64 {
     let mut g = Gen::new(profile);
     let mut idx = 0u64;
-    g.for_each(n, ROOT, &mut |e| {
+    g.for_each_lazy(n, ROOT, &mut |mk| {
         if (idx % nshards as u64) as usize == shard {
-            f(idx, e);
+            f(idx, mk());
         }
         idx += 1;
     });
